@@ -404,6 +404,7 @@ def finish(ctx: Ctx, started: float, seed: int) -> int:
         "per_rule_instances": counts,
         "analysed_modules": len(ctx.repo.modules),
         "source_digest": ctx.repo.digest(),
+        "canonicalisation": getattr(ctx.repo, "canon_stats", {}),
         "known_findings_reported": [
             {"rule": f.rule, "where": f.where, "construct": f.construct} for f in known_hits
         ],
